@@ -101,3 +101,33 @@ pub fn typable(tokens: &[String]) -> bool {
 pub fn phrase(tokens: &[String]) -> String {
     tokens.join(" ")
 }
+
+/// Every shipped constant decoded by the library's own `Deserialize` straight from the bytes of the
+/// data files (map keys in the order the files have them — no `serde_cbor::Value` in between), one
+/// leaked copy per thread so nothing about `Constant` needs to be `Sync`.
+pub fn typed_constants() -> &'static Vec<anything::Constant> {
+    #[derive(Deserialize)]
+    struct TDoc {
+        #[serde(default)]
+        constants: Vec<anything::Constant>,
+    }
+    thread_local! {
+        static T: &'static Vec<anything::Constant> = {
+            let mut out = Vec::new();
+            let mut names: Vec<_> = std::fs::read_dir(format!("{}/db", crate::runner::repo_root())).expect("db dir").filter_map(|e| e.ok()).map(|e| e.path()).collect();
+            names.sort();
+            for p in names {
+                let fname = p.file_name().unwrap().to_string_lossy().to_string();
+                if !fname.ends_with(".bin.gz") || fname == "sources.bin.gz" {
+                    continue;
+                }
+                let bytes = std::fs::read(&p).expect("db file readable");
+                if let Ok(doc) = serde_cbor::from_reader::<TDoc, _>(GzDecoder::new(&bytes[..])) {
+                    out.extend(doc.constants);
+                }
+            }
+            Box::leak(Box::new(out))
+        };
+    }
+    T.with(|t| *t)
+}
